@@ -285,6 +285,68 @@ pub fn plan(prop: &str, tier: Tier) -> Option<Plan> {
         }
         rule.push_str(" | the same engines also run against a nightly build of the crate with `unstable_dropck_eyepatch` (flavour eyep).");
     }
+    // the `dbg` flavour: the library compiled with debug assertions and overflow checks ON (the profile a client's
+    // `cargo test` uses). A debug_assert that is wrong, or a code path that differs under cfg(debug_assertions),
+    // is invisible to the release-like flavours.
+    if std::env::var_os("TV_BIN_DBG").is_some() {
+        let hs = |p: &str, n: u64| -> Vec<Job> {
+            vec![jobb(sized_engine("tok8", p, if q { 48 } else { 128 }), n, "dbg"), jobb(sized_engine("tokz", p, if q { 48 } else { 128 }), n / 3, "dbg"), jobb(sized_engine("tok64", p, if q { 48 } else { 128 }), n / 3, "dbg")]
+        };
+        let n = if q { 3000 } else { 150_000 };
+        let before = jobs.len();
+        match prop {
+            "C01" | "C04" | "C03" => {
+                let p: &'static str = if prop == "C01" { "C01" } else if prop == "C04" { "C04" } else { "C03" };
+                jobs.extend(hs(p, n));
+                jobs.push(jobb(thin_engine("8b/8", p, if q { 40 } else { 128 }), n, "dbg"));
+                jobs.push(jobb(thin_engine("8b/z", p, if q { 40 } else { 128 }), n / 3, "dbg"));
+                if prop == "C04" {
+                    for e in eng::uninit::engines() {
+                        jobs.push(jobb(e, n / 3, "dbg"));
+                    }
+                }
+            }
+            "C08" => jobs.extend(hs("C08", n)),
+            "C09" => {
+                jobs.extend(hs("C09", n));
+                jobs.push(job(MatrixEngine::new("C09"), n * 3, "dbg"));
+            }
+            "C10" => {
+                jobs.push(jobb(thin_engine("8b/8", "C10", if q { 40 } else { 128 }), n, "dbg"));
+                jobs.push(jobb(thin_engine("1/16", "C10", if q { 40 } else { 128 }), n / 2, "dbg"));
+                jobs.push(jobb(thin_engine("8b/z", "C10", if q { 40 } else { 128 }), n / 2, "dbg"));
+            }
+            "C05" => jobs.push(job(MatrixEngine::new("C05"), n * 6, "dbg")),
+            "C11" => {
+                jobs.push(job(MatrixEngine::new("C11"), n * 5, "dbg"));
+                jobs.extend(hs("C11", n));
+            }
+            "C12" => {
+                jobs.push(job(MatrixEngine::new("C12"), n * 4, "dbg"));
+                jobs.extend(hs("C12", n));
+            }
+            "C06" => {
+                for (e, w) in eng::ctor::ctor_engines() {
+                    jobs.push(jobb(e, w * n / 4, "dbg"));
+                }
+            }
+            "C07" => {
+                for (e, w) in eng::ctor::fault_engines() {
+                    jobs.push(jobb(e, w * n / 3, "dbg"));
+                }
+            }
+            "C15" => {
+                for e in eng::uninit::engines() {
+                    jobs.push(jobb(e, n, "dbg"));
+                }
+            }
+            "C16" => jobs.push(job(eng::c16::C16Engine { fixed_grid: true }, 0, "dbg")),
+            _ => {}
+        }
+        if jobs.len() > before {
+            rule.push_str(" | the same engines also run against the library built with debug assertions and overflow checks on (flavour dbg).");
+        }
+    }
     // the ThreadSanitizer flavour (real threads, TSan as the oracle) joins the plan when its binary was built
     // (./check builds it for the thorough tier of the schedule-dependent properties, or with VERIF_TSAN=1)
     // compile probes: the impls / constructors exist for the whole class of payload types the property
